@@ -2,7 +2,9 @@ SPECIFICATION Spec
 CONSTANTS
   Theme = "pipe"
   MaxFd = 5
-  MaxH = 1
+  MaxLen = 6
+  MaxPipe = 2
+  MaxH = 2
 VIEW view
 CONSTRAINT Bounded
 INVARIANT TypeOK
